@@ -61,10 +61,10 @@ void check_content(Ctx& ctx, const S& s, const std::set<uint32_t>& model, const 
 }
 
 // ================================================================== C03
-enum { H_BATCH = 1, H_UPD = 2, H_CONVERT = 3, H_QUERY = 4, H_SERDE = 5, H_RESET = 6, H_COPY = 7 };
+enum { H_BATCH = 1, H_UPD = 2, H_CONVERT = 3, H_QUERY = 4, H_SERDE = 5, H_RESET = 6, H_COPY = 7, H_FLAT = 8 };
 struct C03World: World {
   const char* name() const override { return "c03"; }
-  const char* step_name(int k) const override { static const char* n[] = { "?", "batch", "update", "convert", "query", "serde", "reset", "copy" }; return (k >= 1 && k <= 7) ? n[k] : "step"; }
+  const char* step_name(int k) const override { static const char* n[] = { "?", "batch", "update", "convert", "query", "serde", "reset", "copy", "flat_fill" }; return (k >= 1 && k <= 8) ? n[k] : "step"; }
   std::string family_of(const Plan&) const override { return "hll_sketch"; }
   Plan generate(u64 run_seed, int tier) override {
     Plan p; p.run_seed = run_seed; Rng rc(run_seed, "cfg"), rp(run_seed, "plan");
@@ -81,6 +81,7 @@ struct C03World: World {
       else if (roll < 88) s.kind = H_QUERY;
       else if (roll < 94) { s.kind = H_SERDE; s.a = static_cast<i64>(rp.below(8)); s.b = static_cast<i64>(rp.below(2)); }
       else if (roll < 97) { s.kind = H_COPY; s.a = static_cast<i64>(rp.below(8)); s.b = static_cast<i64>(rp.below(8)); }
+      else if (rp.chance(1, 2) && lg_k <= 8) { s.kind = H_FLAT; s.a = static_cast<i64>(rp.below(1000000)); s.b = static_cast<i64>(rp.below(3)); }
       else s.kind = H_RESET;
       p.steps.push_back(s);
     }
@@ -122,6 +123,13 @@ struct C03World: World {
         }
         case H_COPY: { size_t i = static_cast<size_t>(s.a) % sk.size(), j = static_cast<size_t>(s.b) % sk.size(); if (same_order[i] == same_order[j] && (i < 3) == (j < 3) && (i >= 3 && i < 5) == (j >= 3 && j < 5)) { ds::target_hll_type t = sk[j].get_target_type(); sk[j] = S(sk[i], t); } ctx.nontrivial = true; break; }
         case H_RESET: { for (S& x : sk) x.reset(); model.clear(); batches.clear(); break; }
+        case H_FLAT: {   // adversarial stream: after a reset, exactly one input per slot, all with the same register value v (1..3), found by searching the
+          // independent hash; every register then equals v, which is the state in which HLL_4's cur_min has shifted with no slot left at the minimum
+          for (S& x : sk) x.reset(); model.clear(); batches.clear();
+          const uint32_t k = 1u << lg_k, v = 1 + static_cast<uint32_t>(s.b % 3); std::vector<bool> filled(k, false); uint32_t left = k; std::vector<i64> chosen;
+          for (i64 x = s.a * 1000003; left > 0; x++) { const uint32_t c = coupon_i64(x); const uint32_t slot = (c & 0x3ffffff) & (k - 1); if ((c >> 26) == v && !filled[slot]) { filled[slot] = true; left--; chosen.push_back(x); } }
+          for (i64 x : chosen) { model.insert(coupon_i64(x)); for (S& sx : sk) sx.update(static_cast<int64_t>(x)); }
+          ctx.probe("flat_fill"); ctx.nontrivial = true; break; }
         default: break;
       }
       // logical content of every variant against the independent coupon model
